@@ -3,10 +3,13 @@
 per property and rule, the obligation count must not fall below ~50% of the confirmed count
 (a rule that matches (almost) nothing passes vacuously). Pattern rules with one or two instances on the confirmed tree get no minimum: a tidy-up may legitimately dissolve the pattern, and the named-instance rules report a missing instance themselves."""
 import json,glob,math
+# rule names that bundle several small pattern rules (each with a handful of sites a tidy-up may
+# legitimately dissolve: print sites folded into a helper, two loops merged): no minimum either
+NO_MIN={"T-SNBT","R-RING","R-ACCEPT","R-ESCAPE","R-ERRAS","R-LEN","R-SIBLING"}
 out={}
 for f in sorted(glob.glob('/verif/evidence/C*.json')):
     e=json.load(open(f))
     per=e['coverage'].get('per_rule',{})
-    out[e['property_id']]={"min":{r:(max(1,int(math.floor(n*0.5))) if n>=10 else int(math.floor(n*0.34))) for r,n in sorted(per.items())},"keys":[]}
+    out[e['property_id']]={"min":{r:(0 if r in NO_MIN else max(1,int(math.floor(n*0.5))) if n>=10 else int(math.floor(n*0.34))) for r,n in sorted(per.items())},"keys":[]}
 json.dump(out,open('/verif/rules/anchors.json','w'),indent=1,sort_keys=True)
 print({k:sum(v['min'].values()) for k,v in out.items()})
